@@ -336,11 +336,9 @@ func (c *cacheGate) Close() error { return nil }
 func (r *runState) onClaim(thr int, name, id string) {
 	c := r.ctxs[thr]
 	ev := claimEv{name, id, c.client, thr}
-	for _, o := range r.byID[id] {
-		if o.name != name || o.client != c.client {
-			r.fail("duplicate-mapping-id", fmt.Sprintf("mapping id %s was drawn twice: it claimed %q for client %d and now claims %q for client %d",
-				id, o.name, o.client, name, c.client))
-		}
+	for _, o := range r.byID[id] { // one create = one id = at most one claim: any second claim under an id is a duplicate draw
+		r.fail("duplicate-mapping-id", fmt.Sprintf("mapping id %s was drawn twice: it claimed %q for client %d and now claims %q for client %d",
+			id, o.name, o.client, name, c.client))
 	}
 	r.claims = append(r.claims, ev)
 	r.byID[id] = append(r.byID[id], ev)
